@@ -473,17 +473,23 @@ pub fn semtype_to_runtypes(
 ) -> anyhow::Result<(NamedSchema, Vec<NamedSchema>)> {
     let mut schemer = SchemerContext::new(ctx, counter);
     let out = schemer.convert_to_schema(ty, Some(name))?;
+    // when the type refers to itself (`type T = [string, ...T[]]`), its own definition is one of the helper
+    // definitions and the result is a reference to it
+    let head_is_recursive = schemer.recursive_validators.contains(name);
     let vs: Vec<NamedSchema> = schemer
         .validators
         .into_iter()
         .filter(|it| schemer.recursive_validators.contains(&it.name))
         .collect();
 
-    let vs = vs.into_iter().filter(|it| &it.name != name).collect();
     Ok((
         NamedSchema {
             name: name.clone(),
-            schema: out,
+            schema: if head_is_recursive {
+                Runtype::ref_(name.clone())
+            } else {
+                out
+            },
         },
         vs,
     ))
